@@ -45,6 +45,30 @@ type Collector struct {
 	samples     []json.RawMessage
 	extra       map[string]any
 	violations  int
+	ann         map[string]any // annotations of the case being executed (written into the replay file)
+	replayAnn   map[string]json.RawMessage
+}
+
+// Annotate attaches run-time information (e.g. the realised completion order)
+// to the current case; it is stored in the replay file if the case fails.
+func (c *Collector) Annotate(k string, v any) {
+	c.mu.Lock()
+	defer c.mu.Unlock()
+	if c.ann == nil {
+		c.ann = map[string]any{}
+	}
+	c.ann[k] = v
+}
+
+// ReplayAnnotation loads an annotation of the replayed file into out; false if absent.
+func (c *Collector) ReplayAnnotation(k string, out any) bool {
+	c.mu.Lock()
+	defer c.mu.Unlock()
+	raw, ok := c.replayAnn[k]
+	if !ok {
+		return false
+	}
+	return json.Unmarshal(raw, out) == nil
 }
 
 var (
@@ -184,16 +208,26 @@ func EnvInt(k string, def int) int {
 }
 
 type replayFile struct {
-	Property string          `json:"property"`
-	Message  string          `json:"message,omitempty"`
-	Program  json.RawMessage `json:"program"`
+	Property    string                     `json:"property"`
+	Message     string                     `json:"message,omitempty"`
+	Program     json.RawMessage            `json:"program"`
+	Annotations map[string]json.RawMessage `json:"annotations,omitempty"`
 }
 
-func writeReplay(path, id, msg string, prog []byte) {
+func writeReplay(path, id, msg string, prog []byte, ann map[string]any) {
 	if path == "" {
 		return
 	}
-	b, _ := json.MarshalIndent(replayFile{Property: id, Message: msg, Program: prog}, "", " ")
+	rf := replayFile{Property: id, Message: msg, Program: prog}
+	if len(ann) > 0 {
+		rf.Annotations = map[string]json.RawMessage{}
+		for k, v := range ann {
+			if b, err := json.Marshal(v); err == nil {
+				rf.Annotations[k] = b
+			}
+		}
+	}
+	b, _ := json.MarshalIndent(rf, "", " ")
 	tmp := path + ".tmp"
 	if err := os.WriteFile(tmp, b, 0o644); err == nil {
 		_ = os.Rename(tmp, path)
@@ -223,6 +257,9 @@ func Check[P any](t *testing.T, id string, gen func(*rapid.T) P, run func(tb TB,
 		if err := json.Unmarshal(rf.Program, &p); err != nil {
 			t.Fatalf("replay: %v", err)
 		}
+		coll.mu.Lock()
+		coll.replayAnn = rf.Annotations
+		coll.mu.Unlock()
 		r := run(t, p)
 		coll.record(rf.Program, r)
 		return
@@ -238,6 +275,9 @@ func Check[P any](t *testing.T, id string, gen func(*rapid.T) P, run func(tb TB,
 		if wal && out != "" {
 			_ = os.WriteFile(out+".current", prog, 0o644)
 		}
+		coll.mu.Lock()
+		coll.ann = nil
+		coll.mu.Unlock()
 		done := false
 		defer func() {
 			if done {
@@ -250,8 +290,9 @@ func Check[P any](t *testing.T, id string, gen func(*rapid.T) P, run func(tb TB,
 			msg := fmt.Sprint(r)
 			coll.mu.Lock()
 			coll.violations++
+			ann := coll.ann
 			coll.mu.Unlock()
-			writeReplay(out, id, msg, prog)
+			writeReplay(out, id, msg, prog, ann)
 			if r != nil {
 				panic(r)
 			}
